@@ -109,7 +109,7 @@ def gen_cases(tier, seed):
     for dag in all_small_dags(4):
         ents, procs = fixed_population(len(dag))
         yield {'dag': dag, 'entities': ents, 'procs': procs}
-    n = 500 if tier == 'quick' else 16 * 8000
+    n = 1500 if tier == 'quick' else 16 * 8000
     maxn = 7 if tier == 'quick' else 9
     for i in range(n):
         yield gen_random(random.Random(f'C06/{seed}/{tier}/{i}'), maxn)
